@@ -125,6 +125,7 @@ type Violation struct {
 	Class string `json:"class"` // oracle class, see classes.go
 	Step  int    `json:"step"`
 	Msg   string `json:"msg"`
+	Sig   string `json:"sig,omitempty"` // model-level signature of the failing history (known-findings matching)
 }
 
 func (v *Violation) Error() string {
